@@ -149,6 +149,7 @@ pub fn layout(spec: &mut ElfSpec, r: &mut Rng) -> Built {
     let mut prev_off = pos;
     for i in 1..nsec {
         if spec.secs[i].nobits.is_some() { spec.secs[i].off = pos as u64; continue; }
+        if spec.secs[i].ty == 0 && spec.secs[i].data.is_empty() { spec.secs[i].off = 0; continue; }
         if spec.overlap && i > 1 && r.chance(1, 5) {
             spec.secs[i].off = prev_off as u64;           // overlaps the previous section
             pos = pos.max(prev_off + spec.secs[i].data.len());
@@ -547,5 +548,208 @@ pub fn garbage_family(r: &mut Rng, n: u64, x: &mut Exec, sink: &mut Sink) {
         let b = Built { bytes: bytes.clone(), ..Default::default() };
         let evs = sink.run(x, &json!({"op":"open","es":"Any","fileslot":"file"}));
         if let Some(ev) = evs.first() { sweep(r, x, sink, &b, ev, "q", false); }
+    }
+}
+
+/// dense or sparse buffer event for a file
+pub fn sparse_buf_op(slot: &str, bytes: &[u8]) -> Value {
+    if bytes.len() <= 8192 { return file_buf_op(slot, bytes); }
+    let mut chunks = Vec::new();
+    let mut i = 0usize;
+    while i < bytes.len() {
+        if bytes[i] == 0 { i += 1; continue; }
+        let start = i;
+        let mut zeros = 0usize;
+        let mut end = i;
+        while i < bytes.len() && zeros < 64 {
+            if bytes[i] == 0 { zeros += 1; } else { zeros = 0; end = i + 1; }
+            i += 1;
+        }
+        chunks.push(json!({"off": start, "bytes": bytes_val(&bytes[start..end])}));
+    }
+    json!({"op":"buf","slot":slot,"len":bytes.len(),"fill":0,"chunks":chunks})
+}
+
+fn reader_spec(r: &mut Rng, benign_faults: bool) -> Value {
+    let chunk = *r.pick(&["full", "full", "one", "rand"]);
+    let mut faults = Vec::new();
+    if benign_faults {
+        for _ in 0..r.below(4) { faults.push(json!([r.below(60), *r.pick(&["interrupted", "short"])])); }
+    }
+    json!({"chunk": chunk, "seed": r.next() >> 1, "faults": faults})
+}
+
+/// stream families: "plain" (legal reader behaviours, both parsers side by side), "fault" / "faultall"
+/// (one hard fault at a sampled / at every I/O call index, then the same queries again on the same
+/// stream), "big" (headers claiming huge sizes and counts)
+pub fn stream_family(r: &mut Rng, n: u64, x: &mut Exec, sink: &mut Sink, mode: &str) {
+    for _ in 0..n {
+        let rich = !r.chance(1, 4);
+        let (sp, mut b) = random_elf(r, rich);
+        let mut note = vec![];
+        let corrupt_it = match mode { "big" => true, "plain" => r.chance(1, 3), _ => r.chance(1, 5) };
+        if mode == "big" {
+            // sizes / offsets / counts claim far more than the stream holds
+            let cands: Vec<usize> = b.fields.iter().enumerate().filter(|(_, f)| f.2.ends_with("sh_size") || f.2.ends_with("sh_offset")
+                || f.2.ends_with("p_filesz") || f.2.ends_with("p_offset") || f.2 == "e_shnum" || f.2 == "e_phnum" || f.2 == "e_shoff" || f.2 == "e_phoff"
+                || f.2.ends_with("sh_info") || f.2.ends_with("sh_link")).map(|(i, _)| i).collect();
+            for _ in 0..r.range(1, 3) {
+                if cands.is_empty() { break; }
+                let (off, w, label) = b.fields[*r.pick(&cands)].clone();
+                let v = *r.pick(&[0x10_0000u64, 0x400_0000, 0x4000_0000, 0x7fff_ffff, 0x8000_0000, 0xffff_ffff, 0x1_0000_0000, 1 << 40, 1 << 62, 1 << 63, u64::MAX, u64::MAX - 1, 0xffff, 0xff00]);
+                let mut e = Vec::new(); put(&mut e, v, w, sp.little);
+                if off + w <= b.bytes.len() { b.bytes[off..off + w].copy_from_slice(&e); }
+                note.push(format!("{label}={v:#x}"));
+            }
+        } else if corrupt_it {
+            note = corrupt(&mut b, sp.little, r);
+        }
+        sink.run(x, &json!({"op":"session","family":format!("stream-{mode}"),"what":note}));
+        sink.run(x, &sparse_buf_op("file", &b.bytes));
+        let es = if r.chance(3, 4) { "Any" } else if sp.little { "LE" } else { "BE" };
+        if mode == "plain" || mode == "big" {
+            let evs = sink.run(x, &json!({"op":"open","es":es,"fileslot":"file"}));
+            if let Some(ev) = evs.first() { sweep(r, x, sink, &b, ev, "q", true); }
+            let evs = sink.run(x, &json!({"op":"sopen","es":es,"fileslot":"file","reader":reader_spec(r, true)}));
+            if let Some(ev) = evs.first() {
+                sweep(r, x, sink, &b, ev, "sq", false);
+                // again, in another order and with repetition: cached ranges must give the same answers
+                if r.chance(1, 2) { sweep(r, x, sink, &b, ev, "sq", true); }
+            }
+            continue;
+        }
+        // fault enumeration: fault-free pass records the script and counts the I/O calls
+        let rd = reader_spec(r, false);
+        sink.record = Some(Vec::new());
+        let evs = sink.run(x, &json!({"op":"sopen","es":es,"fileslot":"file","reader":rd}));
+        let mut total = 0u64;
+        if let Some(ev) = evs.first() {
+            total = ev["calls"].as_u64().unwrap_or(0);
+            sweep(r, x, sink, &b, ev, "sq", true);
+        }
+        let script = sink.record.take().unwrap_or_default();
+        // count calls after the sweep: re-issue a cheap query and read the counter
+        let evs = sink.run(x, &json!({"op":"sq","name":"dynamic"}));
+        if let Some(ev) = evs.first() { total = total.max(ev["calls"].as_u64().unwrap_or(0)); }
+        let kinds = ["error", "eof", "short", "interrupted"];
+        let mut points: Vec<(u64, &str)> = Vec::new();
+        if mode == "faultall" {
+            for k in 0..total { for kd in kinds.iter().take(2) { points.push((k, *kd)); } }
+            for _ in 0..(total / 2) { points.push((r.below(total.max(1)), *r.pick(&kinds[2..]))); }
+        } else {
+            for _ in 0..6 { points.push((r.below(total.max(1)), *r.pick(&kinds))); }
+            points.push((0, "error"));
+        }
+        for (k, kind) in points {
+            sink.run(x, &json!({"op":"session","family":format!("stream-{mode}"),"fault":[k, kind]}));
+            sink.run(x, &sparse_buf_op("file", &b.bytes));
+            for (j, op) in script.iter().enumerate() {
+                let mut o = op.clone();
+                if j == 0 {
+                    o["reader"]["faults"] = json!([[k, kind]]);
+                    if r.chance(1, 8) { o["reader"]["perm_from"] = json!(k); }
+                }
+                sink.run(x, &o);
+            }
+            // the same queries again on the same stream object, no new faults
+            for op in script.iter().skip(1) { sink.run(x, op); }
+        }
+    }
+}
+
+/// C18: every interesting prefix of a file (and extensions of it); slot "full" holds the longer file
+pub fn prefix_family(r: &mut Rng, n: u64, x: &mut Exec, sink: &mut Sink, every: bool) {
+    for _ in 0..n {
+        let (sp, b) = loop {
+            let (mut sp, _) = random_elf(r, true);
+            // tables early so that most prefixes still open
+            sp.tables_early = true; sp.gap = 0; sp.overlap = false;
+            for s in sp.secs.iter_mut() { if let Some(z) = s.nobits { if z > 1 << 20 { s.nobits = Some(64); } } }
+            let mut nb = layout(&mut sp, r);
+            if nb.bytes.len() < 1500 || every { let (_, ob) = (0, 0); let _ = (ob,); nb.sym_names = vec![]; break (sp, nb); }
+        };
+        let full = b.bytes.clone();
+        let mut cuts: Vec<usize> = Vec::new();
+        if every {
+            cuts = (0..full.len()).collect();
+        } else {
+            let mut marks: Vec<usize> = b.fields.iter().flat_map(|(o, w, _)| vec![*o, *o + *w]).collect();
+            for s in &sp.secs { if s.nobits.is_none() { marks.push(s.off as usize); marks.push(s.off as usize + s.data.len()); } }
+            marks.sort(); marks.dedup();
+            for _ in 0..14 { let m = *r.pick(&marks); for d in [0usize, 1, 2] { let c = (m + 1).saturating_sub(d); if c < full.len() { cuts.push(c); } } }
+            for _ in 0..6 { cuts.push(r.below(full.len() as u64) as usize); }
+            cuts.push(full.len() - 1);
+            cuts.sort(); cuts.dedup();
+        }
+        let es = *r.pick(&["Any", "Any", if sp.little { "LE" } else { "BE" }]);
+        for c in cuts {
+            sink.run(x, &json!({"op":"session","family":"prefix","cut":c,"of":full.len()}));
+            sink.run(x, &file_buf_op("full", &full));
+            sink.run(x, &file_buf_op("file", &full[..c]));
+            let evs = sink.run(x, &json!({"op":"open","es":es,"fileslot":"file"}));
+            let pb = Built { bytes: full[..c].to_vec(), sec_names: b.sec_names.clone(), sym_names: b.sym_names.clone(), nversym: b.nversym, ..Default::default() };
+            if let Some(ev) = evs.first() { sweep(r, x, sink, &pb, ev, "q", true); }
+        }
+        // appending arbitrary bytes: the original is the prefix
+        for _ in 0..2 {
+            let mut ext = full.clone();
+            let k = r.range(1, 40) as usize;
+            ext.extend(r.bytes(k));
+            sink.run(x, &json!({"op":"session","family":"prefix","append":k}));
+            sink.run(x, &file_buf_op("full", &ext));
+            sink.run(x, &file_buf_op("file", &full));
+            let evs = sink.run(x, &json!({"op":"open","es":es,"fileslot":"file"}));
+            if let Some(ev) = evs.first() { sweep(r, x, sink, &b, ev, "q", true); }
+        }
+    }
+}
+
+/// C05: where the header tables are, incl. extended numbering with counts crossing 0xff00 / 0xffff
+pub fn locate_family(r: &mut Rng, n: u64, x: &mut Exec, sink: &mut Sink) {
+    for _ in 0..n {
+        let class = *r.pick(&[32u64, 64]);
+        let little = r.chance(1, 2);
+        let nsec: usize = *r.pick(&[1usize, 2, 5, 0xfeff, 0xff00, 0xff01, 0xff20, 3, 4]);
+        let nseg: usize = *r.pick(&[0usize, 1, 3, 0xfffe, 0xffff, 0x10000, 0x10010, 2]);
+        let mut sp = ElfSpec { class, little, have_shdrs: true, have_phdrs: nseg > 0, tables_early: r.chance(1, 2), ..Default::default() };
+        sp.secs.push(Sec::default());
+        for i in 1..nsec.min(6) { let k = r.below(12) as usize; sp.secs.push(sec(format!(".s{i}").as_bytes(), SHT_PROGBITS, r.bytes(k))); }
+        while sp.secs.len() < nsec { sp.secs.push(Sec::default()); }
+        // the section name string table: below / at / above 0xff00 when there are that many sections
+        let ndx = if nsec > 0xff00 { *r.pick(&[2usize.min(nsec - 1), 0xfeff, 0xff00, nsec - 1]) } else { r.range(0, nsec as u64 - 1) as usize };
+        if ndx > 0 { sp.secs[ndx] = sec(b".shstrtab", SHT_STRTAB, vec![]); }
+        sp.shstrndx = ndx;
+        sp.ext_shnum = nsec >= 0xff00 || r.chance(1, 4);
+        sp.ext_shstrndx = ndx >= 0xff00 || (ndx > 0 && r.chance(1, 4));
+        sp.ext_phnum = nseg >= 0xffff || (nseg > 0 && r.chance(1, 4));
+        for _ in 0..nseg.min(4) { sp.segs.push(Seg { ty: 1, flags: 5, sec: Some(r.range(0, nsec.min(6) as u64 - 1) as usize), align: 16, ..Default::default() }); }
+        while sp.segs.len() < nseg { sp.segs.push(Seg::default()); }
+        // shdr[0] holds three pairwise distinct values, each designating a table that would fit
+        if !sp.ext_phnum { sp.secs[0].info = (nsec as u32 / 2).max(1) + 1; }
+        if !sp.ext_shstrndx { sp.secs[0].link = (nsec as u32 / 3).max(1) + 2; }
+        let mut b = layout(&mut sp, r);
+        let mut note = vec![format!("nsec={nsec:#x} nseg={nseg:#x} ndx={ndx:#x}")];
+        // defects that must make open fail / absent tables
+        let fidx = |b: &Built, l: &str| b.fields.iter().position(|f| f.2 == l);
+        match r.below(10) {
+            0 => { if let Some(i) = fidx(&b, "e_shentsize") { let (o, w, _) = b.fields[i].clone(); let v = *r.pick(&[0u64, 39, 41, 63, 65, 40, 64, 0xffff]); let mut e = vec![]; put(&mut e, v, w, little); b.bytes[o..o + w].copy_from_slice(&e); note.push(format!("e_shentsize={v}")); } }
+            1 => { if let Some(i) = fidx(&b, "e_phentsize") { let (o, w, _) = b.fields[i].clone(); let v = *r.pick(&[0u64, 31, 33, 55, 57, 32, 56, 0xffff]); let mut e = vec![]; put(&mut e, v, w, little); b.bytes[o..o + w].copy_from_slice(&e); note.push(format!("e_phentsize={v}")); } }
+            2 => { let k = r.range(1, 3) as usize; let l = b.bytes.len(); b.bytes.truncate(l - k.min(l)); note.push(format!("cut_tail={k}")); }
+            3 => { if let Some(i) = fidx(&b, "e_shoff") { let (o, w, _) = b.fields[i].clone(); for j in 0..w { b.bytes[o + j] = 0; } note.push("e_shoff=0".into()); } }
+            4 => { if let Some(i) = fidx(&b, "e_phoff") { let (o, w, _) = b.fields[i].clone(); for j in 0..w { b.bytes[o + j] = 0; } note.push("e_phoff=0".into()); } }
+            _ => {}
+        }
+        sink.run(x, &json!({"op":"session","family":"locate","what":note}));
+        sink.run(x, &sparse_buf_op("file", &b.bytes));
+        let es = *r.pick(&["Any", if little { "LE" } else { "BE" }]);
+        sink.run(x, &json!({"op":"open","es":es,"fileslot":"file"}));
+        sink.run(x, &json!({"op":"q","name":"shdrs_with_strtab"}));
+        sink.run(x, &json!({"op":"sopen","es":es,"fileslot":"file","reader":{"chunk":"full","seed":1,"faults":[]}}));
+        sink.run(x, &json!({"op":"sq","name":"shdrs_with_strtab"}));
+        if nsec < 64 && nseg < 64 {
+            for nm in ["symbol_table", "dynamic", "symbol_version_table"] {
+                let mut o = json!({"op":"q","name":nm}); if nm == "symbol_version_table" { o["qs"] = json!([]); } sink.run(x, &o);
+            }
+        }
     }
 }
